@@ -149,7 +149,6 @@ type retryOrder struct{} // the real Commit chose another (legal) substore order
 // runner executes one behaviour on one world.
 type runner struct {
 	w        *world
-	lastWhy  string
 	protoDev int // commits whose database writes do not have the shape the specification assumes
 	flushes  int
 }
@@ -442,6 +441,7 @@ func (r *runner) exec(s hx.Step) (d *diff) {
 					itErr = fmt.Sprint(rec)
 				}
 			}()
+			touch(st, w.keys)
 			if s.Bool("asc") {
 				it, _ := st.Iterator(lo, hi)
 				for ; it.Valid(); it.Next() {
@@ -507,17 +507,21 @@ func (r *runner) checkDisk(nv map[string]int, ni int, latest int) *diff {
 
 // ---------------------------------------------------------------------------------------
 
+// nontrivial: a persistent write is followed by a step whose real outcome is compared with
+// the specification (commit, crash, reopen, rollback, historical read / failed historical load).
 func nontrivial(beh []hx.Step) bool {
 	wrote := false
-	for i, s := range beh {
+	for _, s := range beh {
 		switch s.Str("op") {
 		case "Set", "Del":
 			wrote = true
-		}
-		if i == len(beh)-1 {
-			switch s.Str("op") {
-			case "Flush", "Reopen", "Crash", "Rollback", "HistGet", "HistIter", "LazyLoadErr", "LazyLoad":
-				return wrote
+		case "Flush", "Reopen", "Rollback", "HistGet", "HistIter", "LazyLoadErr":
+			if wrote {
+				return true
+			}
+		case "Crash":
+			if wrote && s.Str("phase") == "commit" {
+				return true
 			}
 		}
 	}
@@ -560,6 +564,9 @@ func replay(in string, names []string, nk, ntk int, variants []string, prop, scr
 		var a acc
 		for vi, vs := range variants {
 			v := parseVariant(vs)
+			if idx%v.every != 0 {
+				continue
+			}
 		attempts:
 			for attempt := 0; ; attempt++ {
 				rng := rand.New(rand.NewSource(hx.Seed()*7919 + int64(idx)*31 + int64(vi)))
@@ -591,8 +598,13 @@ func replay(in string, names []string, nk, ntk int, variants []string, prop, scr
 						why := s.Str("why")
 						os := owners(s.Str("op"), d.what, why)
 						if !owns(prop, os) {
+							// outside the judged property's footprint: counted, reported by the owning
+							// property's check.  The behaviour goes on unless the real code failed.
 							a.abandoned++
-							return
+							if d.what == "exec" {
+								return
+							}
+							continue
 						}
 						m := hx.Mismatch{Behaviour: idx, Step: si, Op: s.Str("op"), What: d.what, Want: d.want, Got: d.got, History: beh, Variant: vs}
 						if d.known != "" {
